@@ -544,9 +544,11 @@ pub fn generate(rng: &mut Rng) -> Scenario {
         if parent.matches('/').count() >= 3 {
             continue;
         }
-        let name = match rng.below(8) {
+        let name = match rng.below(10) {
             0 => format!("d{i}.slice"), // a directory with the extension
             1 => format!("sp ace{i}"),
+            2 => format!(".hidden{i}"), // nothing special about dot directories
+            3 => format!("dä{i}"),
             _ => format!("d{i}"),
         };
         let p = join(&parent, &name);
@@ -562,6 +564,16 @@ pub fn generate(rng: &mut Rng) -> Scenario {
             0 => entries.push(file(join(&dir, &format!("notes{k}.txt")), "not slice\n".into())),
             1 => entries.push(file(join(&dir, &format!("old{k}.slice.bak")), slice_text(1000 + k))),
             2 => entries.push(file(join(&dir, &format!("noext{k}")), slice_text(2000 + k))),
+            // near misses of the extension: none of these is a Slice file
+            3 if rng.chance(1, 2) => {
+                let name = match rng.below(4) {
+                    0 => format!("UP{k}.SLICE"),
+                    1 => format!("two{k}.slice2"),
+                    2 => format!("x{k}.slice.txt"),
+                    _ => format!("sl{k}.slic"),
+                };
+                entries.push(file(join(&dir, &name), slice_text(3000 + k)))
+            }
             _ => {
                 let p = join(&dir, &format!("f{k}.slice"));
                 entries.push(file(p.clone(), slice_text(k)));
